@@ -363,20 +363,21 @@ func Inject(r *rng.R, p *Program) (Injection, bool) {
 			}
 			return "", false
 		}},
-		// ---- probes of known findings (D13 D14 D23 D26 D27 are fixed in the repository: their
-		// shapes are ordinary class A/B injections now, so a regression is a disagreement) ----
-		{"D9-out-of-range-constant", "K:D9", func() (string, bool) {
+		// ---- shapes of findings fixed in the repository (D9 D11 D13 D14 D23 D26 D27): ordinary
+		// class A/B injections, so a regression is a disagreement ----
+		{"D9-out-of-range-constant", "B", func() (string, bool) {
 			f := p.Files[r.Intn(len(p.Files))]
 			f.Consts = append(f.Consts, &Constant{File: f, Name: "out_of_range", Type: &Type{K: I8}, Value: &Lit{K: LInt, I: 1000}})
 			return "const i8 out_of_range = 1000", true
 		}},
-		{"D11-duplicate-enum-values", "K:D11", func() (string, bool) {
+		{"D11-duplicate-enum-values", "A", func() (string, bool) {
 			f := p.Files[r.Intn(len(p.Files))]
 			d := &Def{File: f, Name: "DupValues", Kind: Enum, Index: 1 << 20, Items: []*EnumItem{
 				{Name: "A", Value: 1, Explicit: true}, {Name: "B", Value: 1, Explicit: true}, {Name: "C", Value: 2, Explicit: true}}}
 			f.Defs = append(f.Defs, d)
 			return "enum DupValues {A = 1, B = 1, C = 2}", true
 		}},
+		// ---- probes of known findings ----
 		{"D12-default-on-typedef-of-container", "K:D12", func() (string, bool) {
 			f := p.Files[r.Intn(len(p.Files))]
 			td := &Def{File: f, Name: "IntListAlias", Kind: Typedef, Index: 1 << 20, Target: &Type{K: List, Elem: &Type{K: I32}}}
